@@ -481,8 +481,13 @@ func (m Model) opsFieldsCx(ops []Op, where string, st *evState, cx *ctxEffects) 
 			st.stack = true
 		case "ctx":
 			st.ctx = string(v.S)
-			if v.EK == "alt" {
+			switch v.EK {
+			case "alt":
 				st.ctx = "alt:" + st.ctx
+			case "cancelled":
+				st.ctx += "|cancelled"
+			case "deadline":
+				st.ctx += "|deadline"
 			}
 			if v.Nil {
 				st.ctx = ""
